@@ -64,6 +64,10 @@ BODIES = [
                          '>>> print("ran{id}")', 'ran{id}']),
     ('switch_requires_inline', ['>>> T.append("{id}")  # xdoctest: +REQUIRES(env:XV_SW!=A)', '>>> print("after{id}")',
                                 'after{id}']),
+    # module requirements that share a top-level package: a missing submodule says nothing about the package
+    ('req_missing_sub', ['>>> T.append("pre{id}")', '>>> # xdoctest: +REQUIRES(module:{pkg}.no_such_submodule_zz)',
+                         '>>> T.append("{id}")']),
+    ('req_existing_pkg', ['>>> # xdoctest: +REQUIRES(module:{pkg})', '>>> T.append("{id}")', '>>> print("has{id}")', 'has{id}']),
     ('gotwant_fail', ['>>> T.append("{id}")', '>>> print("a")', 'b']),
     # nothing runs at all: skipped on every run, also on the n-th run of the same object
     ('all_skipped', ['>>> # xdoctest: +SKIP', '>>> T.append("{id}")', '>>> print("never")', 'BOGUS']),
@@ -86,9 +90,13 @@ SWITCHED = ('switch', 'switch_bind', 'switch_requires', 'switch_requires_inline'
 
 
 def required_cells(tier):
-    return (['kind:' + k for k in KINDS] + ['history:same-object-twice', 'history:switch-AB', 'history:switch-BA',
+    return (['kind:' + k for k in KINDS] + ['history:same-object-twice', 'history:switch-AB', 'history:switch-BA', 'history:missing-submodule-then-package',
             'history:ordered-pair', 'history:random', 'history:fresh-object', 'module-dict-checks', 'baseline-children',
             'session-options:none', 'session-options:given', 'mode:native', 'mode:pytest'])
+
+
+REQ_PACKAGES = ['json', 'email', 'xml', 'logging', 'http', 'urllib', 'concurrent', 'importlib', 'unittest', 'collections',
+                'html', 'dbm', 'sqlite3', 'wsgiref', 'xmlrpc', 'multiprocessing', 'ctypes', 'asyncio', 'encodings', 'zoneinfo']
 
 
 def gen(rng, uid):
@@ -98,6 +106,15 @@ def gen(rng, uid):
     kinds = [rng.choice(BODIES) for _ in range(n)]
     if not any(k in SWITCHED for k, _ in kinds) and rng.random() < 0.7:
         kinds[rng.randrange(n)] = rng.choice([b for b in BODIES if b[0] in SWITCHED])
+    if rng.random() < 0.35:
+        kinds = [k for k in kinds if not k[0].startswith('req_')]
+        kinds += [b for b in BODIES if b[0] == 'req_missing_sub'] + [b for b in BODIES if b[0] == 'req_existing_pkg']
+    # (a package this worker process has not asked about yet, as long as the list lasts)
+    try:
+        pkg = REQ_PACKAGES[(int(uid.split('x')[1]) // 16) % len(REQ_PACKAGES)]
+    except Exception:
+        pkg = 'json'
+    kinds = [(k, [ln.replace('{pkg}', pkg) for ln in body]) for k, body in kinds]
     for k, (kind, body) in enumerate(kinds):
         i = 's%sk%d' % (uid, k)
         src += ['def fn%d():' % k, '    """', '    Example:'] + \
@@ -246,6 +263,10 @@ def check_module(ctx, idx, seed):
             if kind_of[n] in SWITCHED:
                 histories.append(('switch-AB', [(n, 'A', False), (n, 'B', False)]))
                 histories.append(('switch-BA', [(n, 'B', False), (n, 'A', False), (n, 'B', False)]))
+        miss = [n for n in names if kind_of[n] == 'req_missing_sub']
+        have = [n for n in names if kind_of[n] == 'req_existing_pkg']
+        if miss and have:
+            histories.append(('missing-submodule-then-package', [(miss[0], 'B', False), (have[0], 'B', False)]))
         pairs = [(a, b) for a in names for b in names if a != b]
         rng.shuffle(pairs)
         for a, b in pairs[:ctx.pick(8, 30)]:
